@@ -8,7 +8,29 @@ from .observe import canon
 
 NESTED = {'NM': 'NelderMeadSimplexSolver', 'Powell': 'PowellDirectionalSolver', 'DE': 'DifferentialEvolutionSolver'}
 
-def build_ensemble(plan, run, map_spec):
+def nested_instance(plan):
+    """a configured nested-solver INSTANCE (the documented alternative to passing the class): the ensemble deep-copies
+    it for every member, so the user's instance can be handed to one ensemble after another"""
+    import mystic.solvers as ms
+    cls = getattr(ms, NESTED[plan['nested']])
+    inst = cls(plan['dim'], plan['nested_np']) if plan.get('nested_np') else cls(plan['dim'])
+    # with an instance the ensemble applies none of its own settings to the members: the user configures the instance
+    # (here: exactly as the ensemble is configured, objective included)
+    inst.SetRandomInitialPoints()
+    b = plan.get('bounds')
+    if b:
+        kw = {}
+        if 'tight' in b: kw['tight'] = b['tight']
+        if 'clip' in b: kw['clip'] = b['clip']
+        inst.SetStrictRanges(list(b['lo']), list(b['hi']), **kw)
+    if plan.get('constraint'): inst.SetConstraints(SimConstraint(plan['constraint']))
+    if plan.get('penalty'): inst.SetPenalty(SimPenalty(plan['penalty']))
+    if plan.get('termination'): inst.SetTermination(engine.build_term(plan['termination']))
+    if plan.get('limits'): inst.SetEvaluationLimits(plan['limits'][0], plan['limits'][1])
+    inst.SetObjective(SimCost(plan['cost']))
+    return inst
+
+def build_ensemble(plan, run, map_spec, instance=None):
     import mystic.solvers as ms
     import mystic.ensemble as me
     dim = plan['dim']
@@ -17,7 +39,8 @@ def build_ensemble(plan, run, map_spec):
     elif kind == 'Buckshot': s = me.BuckshotSolver(dim, npts=plan['npts'])
     else: s = me.SparsitySolver(dim, npts=plan['npts'])
     nested = getattr(ms, NESTED[plan['nested']])
-    if plan.get('nested_np'): s.SetNestedSolver(nested, NP=plan['nested_np'])
+    if instance is not None: s.SetNestedSolver(instance)
+    elif plan.get('nested_np'): s.SetNestedSolver(nested, NP=plan['nested_np'])
     else: s.SetNestedSolver(nested)
     peers = {'cost': SimCost(plan['cost']), 'con': None, 'pen': None}
     b = plan.get('bounds')
